@@ -94,15 +94,16 @@ class Builder:
         cin = self.ch[src]
         cout = cin if dw else (cout or rng.choice([2, 3, 4, 5, 6]))
         bias = rng.random() < .7
+        unit = bool(self.o.get('unit'))    # channel-level nets: every kernel 1, every spatial size 1
         if dim == 1:
-            K = rng.choice(k_choices or [1, 2, 3, 4, 5, 6, 7, 9])
-            d = rng.choice([1, 1, 2, 3])
-            s = 1 if keep_size else rng.choice([1, 1, 1, 2])
+            K = 1 if unit else rng.choice(k_choices or [1, 2, 3, 4, 5, 6, 7, 9])
+            d = 1 if unit else rng.choice([1, 1, 2, 3])
+            s = 1 if (keep_size or unit) else rng.choice([1, 1, 1, 2])
             p = self.add(('pad', src, nn.ConstantPad1d(((K - 1) * d, 0), 0.)), cin, self.sp[src])
             m = nn.Conv1d(cin, cout, K, stride=s, dilation=d, groups=cin if dw else 1, bias=bias)
         else:
-            K = rng.choice([1, 3])
-            s = 1 if keep_size else rng.choice([1, 1, 2])
+            K = 1 if unit else rng.choice([1, 3])
+            s = 1 if (keep_size or unit) else rng.choice([1, 1, 2])
             p = src
             m = nn.Conv2d(cin, cout, K, stride=s, padding=K // 2, groups=cin if dw else 1, bias=bias)
         so = (self.sp[src] - 1) // s + 1
@@ -121,17 +122,21 @@ def gen_program(rng, dim, opts=None):
     b = Builder(rng, dim, o)
     C0 = rng.choice([2, 3])
     T = rng.choice([8, 12]) if dim == 1 else rng.choice([6, 8])
+    if o.get('unit'):
+        T = 1
     shape = (C0, T) if dim == 1 else (C0, T, T)
     two = bool(o.get('two_inputs'))
     x0 = b.add(('input', 0), C0, T)
+    C1 = rng.choice([2, 3, 4])          # the second input has its own width
+    shape1 = (C1,) + shape[1:]
     if two:
-        x1 = b.add(('input', 1), C0, T)
+        x1 = b.add(('input', 1), C1, T)
         if rng.random() < .5:
             a0 = b.conv(x0, cout=4, keep_size=True)
             a1 = b.conv(x1, cout=4, keep_size=True)
             cur = b.add(('add', a0, a1), 4, T)
         else:
-            cur = b.add(('cat', [x0, x1]), 2 * C0, T)
+            cur = b.add(('cat', [x0, x1]), C0 + C1, T)
             cur = b.conv(cur)
     else:
         cur = b.conv(x0)
@@ -188,7 +193,7 @@ def gen_program(rng, dim, opts=None):
         feat = b.ch[fa] + b.ch[fb]
         f = b.add(('cat', [fa, fb]), feat, 1)
         b.add(('lin', f, nn.Linear(feat, rng.choice([2, 3]))), 0, 1)
-        return b.prog, [shape] * (2 if two else 1)
+        return b.prog, ([shape, shape1] if two else [shape])
     if o.get('cat_tail') and not o.get('unsupported'):
         # a channel concat right before the flatten / head (with exclusions: reaches an excluded
         # Linear through concat + element-wise op + flatten)
@@ -201,6 +206,21 @@ def gen_program(rng, dim, opts=None):
         cur = b.add(('cat', lst), sum(b.ch[j] for j in lst), b.sp[cur])
         if rng.random() < .6:
             cur = b.add(('relu', cur), b.ch[cur], b.sp[cur])
+    if o.get('fixed_cat') and not o.get('unsupported'):
+        # channel concat of two tensors of fixed origin and different widths (layers excluded from
+        # the search by name, or a network input), feeding a searchable layer
+        ca = rng.choice([2, 3])
+        a = b.conv(cur, cout=ca, keep_size=True)
+        c2 = b.conv(cur, cout=ca + rng.choice([1, 2]), keep_size=True)
+        for node in (a, c2):
+            j = node
+            while b.prog[j][0] not in ('conv',):
+                j -= 1
+            b.prog[j][-1]._force_excl = True
+        lst = [a, c2] + ([cur] if rng.random() < .4 else [])
+        rng.shuffle(lst)
+        cur = b.add(('cat', lst), sum(b.ch[j] for j in lst), b.sp[cur])
+        cur = b.conv(cur)
     unsup = o.get('unsupported')
     if unsup == 'add_cat':
         # residual sum one of whose operands is a channel concat (known finding K9)
@@ -242,7 +262,7 @@ def gen_program(rng, dim, opts=None):
         other = b.add(('lin', f, nn.Linear(feat, rng.choice([2, 3]))), 0, 1)
         other = b.add(('relu', other), 0, 1) if rng.random() < .5 else other
         b.add(('cat', [last, other]), 0, 1)
-    return b.prog, [shape] * (2 if two else 1)
+    return b.prog, ([shape, shape1] if two else [shape])
 
 
 def build_net(prog, n_inputs):
@@ -254,16 +274,42 @@ def randomize_bn(net, rng):
     with torch.no_grad():
         for m in net.modules():
             if isinstance(m, (nn.BatchNorm1d, nn.BatchNorm2d)):
+                # hyper-parameters are part of the function: non-default eps (Keras-ported models
+                # use 1e-3), small variances so that eps matters
+                m.eps = rng.choice([1e-5, 1e-5, 1e-3, 1e-2, .1])
                 m.running_mean.copy_(torch.randn(m.num_features, generator=g))
-                m.running_var.copy_(torch.rand(m.num_features, generator=g) + .5)
+                m.running_var.copy_(torch.rand(m.num_features, generator=g) * rng.choice([1., 1., .05]) + rng.choice([.5, .02]))
                 m.weight.copy_(torch.randn(m.num_features, generator=g))
                 m.bias.copy_(torch.randn(m.num_features, generator=g))
+
+
+def intify(net, rng):
+    """Small integer weights, biases and BatchNorm statistics (variance 1, eps 0), so that every
+    value the network computes on an integer input is an exactly representable integer."""
+    with torch.no_grad():
+        for m in net.modules():
+            if isinstance(m, (nn.Conv1d, nn.Conv2d, nn.Linear)):
+                m.weight.copy_(torch.tensor([rng.choice([-2, -1, -1, 0, 1, 1, 2]) for _ in range(m.weight.numel())],
+                                            dtype=torch.float32).reshape(m.weight.shape))
+                if m.bias is not None:
+                    m.bias.copy_(torch.tensor([float(rng.randint(-3, 3)) for _ in range(m.bias.numel())]))
+            elif isinstance(m, (nn.BatchNorm1d, nn.BatchNorm2d)):
+                n = m.num_features
+                m.eps = 0.
+                m.running_var.fill_(1.)
+                m.running_mean.copy_(torch.tensor([float(rng.randint(-2, 2)) for _ in range(n)]))
+                m.weight.copy_(torch.tensor([float(rng.choice([-2, -1, 1, 1, 2])) for _ in range(n)]))
+                m.bias.copy_(torch.tensor([float(rng.randint(-2, 2)) for _ in range(n)]))
 
 
 def choose_exclusions(prog, rng, mode):
     """mode: None | 'names' | 'types' | 'both'.  Returns (exclude_names, exclude_types, excluded node ids)."""
     layers = [i for i, ins in enumerate(prog) if ins[0] in ('conv', 'dw', 'lin')]
     names, types, excl = [], [], set()
+    for i in layers:
+        if getattr(prog[i][-1], '_force_excl', False):
+            names.append('n%d' % i)
+            excl.add(i)
     if mode in ('names', 'both'):
         # never exclude the last layer only (too easy): pick 1..2 layers anywhere
         for i in rng.sample(layers, min(len(layers), rng.choice([1, 1, 2]))):
@@ -357,6 +403,9 @@ def set_masks(pit, rng, style='mixed'):
             if m is None or id(m) in done:
                 continue
             if isinstance(m, PITFrozenFeaturesMasker):
+                # a frozen mask is a constant whatever its `alpha` entry of the state_dict holds
+                if style != 'open':
+                    m.alpha.copy_(torch.tensor([rng.choice(ALPHA_PALETTE) / 8 for _ in range(m.alpha.numel())]))
                 done[id(m)] = None
                 continue
             n = m.alpha.numel()
